@@ -42,17 +42,24 @@ const (
 	SecSetKind         // Resp.G<k> = VA<r>                        ill-typed value stored into an injected struct field
 	SecSetNil          // N<r>.X = 1                               field store through a nil injected pointer
 	SecRangeKey        // forRange x := MM<r> { H.KeyIs(r, x) }    the loop key is a local (named like everybody's local)
+	SecThreeNil        // a = T<r>.P.X                             nil pointer on a three-level field read, assignment rhs
+	SecIfThreeNil      // if T<r>.P.X > 0 { H.Y }                  the same in an if condition
+	SecArgCount        // H.F(r)                                   too few arguments for an injected method (always faults)
+	SecNilMapSet       // NMAP<r>["k"] = 1                         store into a nil injected map
+	SecFuncCall        // ff(r,p)                                  panic in an injected *function*, call statement
+	SecIfFunc          // if fc(r,p) { H.Y }                       panic in an injected function inside an if condition
+	SecThreeSet        // T<r>.P.X = 1                             store through a nil pointer on a three-level name
 	SecLocObj          // lo = H.Obj(r) ; lo.Ping(r)               a method called on an object kept in a local
 	SecLocObjReader    // lo.Ping(r) without assigning lo          must fail
 	numSecKinds
 )
 
-var secNames = [...]string{"Y", "Call", "AsgCall", "AsgKind", "Div", "Idx", "Nil", "Unknown", "Arg", "IfKind", "IfIdx", "IfNil", "Elif", "ForKind", "ForStep", "Unb", "Conc", "Local", "Reader", "Stop", "ShW", "ShR", "Upd", "Echo", "Opt", "IfCall", "ForRange", "MapIdx", "SetKind", "SetNil", "RangeKey", "LocObj", "LocObjReader"}
+var secNames = [...]string{"Y", "Call", "AsgCall", "AsgKind", "Div", "Idx", "Nil", "Unknown", "Arg", "IfKind", "IfIdx", "IfNil", "Elif", "ForKind", "ForStep", "Unb", "Conc", "Local", "Reader", "Stop", "ShW", "ShR", "Upd", "Echo", "Opt", "IfCall", "ForRange", "MapIdx", "SetKind", "SetNil", "RangeKey", "ThreeNil", "IfThreeNil", "ArgCount", "NilMapSet", "FuncCall", "IfFunc", "ThreeSet", "LocObj", "LocObjReader"}
 
 // FaultCapable reports whether a section hosts a fault point.
 func FaultCapable(k int) bool {
 	switch k {
-	case SecCall, SecAsgCall, SecAsgKind, SecDiv, SecIdx, SecNil, SecUnknown, SecArg, SecIfKind, SecIfIdx, SecIfNil, SecElif, SecForKind, SecForStep, SecUnb, SecConc, SecIfCall, SecForRange, SecMapIdx, SecSetKind, SecSetNil:
+	case SecCall, SecAsgCall, SecAsgKind, SecDiv, SecIdx, SecNil, SecUnknown, SecArg, SecIfKind, SecIfIdx, SecIfNil, SecElif, SecForKind, SecForStep, SecUnb, SecConc, SecIfCall, SecForRange, SecMapIdx, SecSetKind, SecSetNil, SecThreeNil, SecIfThreeNil, SecArgCount, SecNilMapSet, SecFuncCall, SecIfFunc, SecThreeSet:
 		return true
 	}
 	return false
@@ -60,7 +67,9 @@ func FaultCapable(k int) bool {
 
 // MarkerFault reports whether the fault of a section is a panic of an injected
 // method carrying a unique marker string.
-func MarkerFault(k int) bool { return k == SecCall || k == SecAsgCall || k == SecIfCall }
+func MarkerFault(k int) bool {
+	return k == SecCall || k == SecAsgCall || k == SecIfCall || k == SecFuncCall || k == SecIfFunc
+}
 
 // Return shapes of a rule.
 const (
@@ -128,7 +137,10 @@ func (r *RuleDef) YieldKs() []int {
 		case SecRangeKey, SecLocObj:
 			ks = append(ks, yk)
 			yk++
-		case SecIfKind, SecIfIdx, SecIfNil, SecForStep, SecIfCall, SecForRange:
+		case SecIfFunc:
+			ks = append(ks, yk)
+			yk++
+		case SecIfKind, SecIfIdx, SecIfNil, SecForStep, SecIfCall, SecForRange, SecIfThreeNil:
 			yk++
 		case SecElif:
 			yk += 2
@@ -210,6 +222,22 @@ func (r *RuleDef) Render() string {
 			fmt.Fprintf(&b, "H.B(%d,%d)\nResp.G%d = VA%d\n", id, p, id%8, id)
 		case SecSetNil:
 			fmt.Fprintf(&b, "H.B(%d,%d)\nN%d.X = 1\n", id, p, id)
+		case SecThreeNil:
+			fmt.Fprintf(&b, "H.B(%d,%d)\na%d = T%d.P.X\n", id, p, p, id)
+		case SecIfThreeNil:
+			fmt.Fprintf(&b, "H.B(%d,%d)\nif T%d.P.X > 0 {\nH.Y(%d,%d)\n}\n", id, p, id, id, yk)
+			yk++
+		case SecArgCount:
+			fmt.Fprintf(&b, "H.B(%d,%d)\nH.F(%d)\n", id, p, id)
+		case SecNilMapSet:
+			fmt.Fprintf(&b, "H.B(%d,%d)\nNMAP%d[\"k\"] = 1\n", id, p, id)
+		case SecFuncCall:
+			fmt.Fprintf(&b, "ff(%d,%d)\n", id, p)
+		case SecIfFunc:
+			fmt.Fprintf(&b, "if fc(%d,%d) {\nH.Y(%d,%d)\n}\n", id, p, id, yk)
+			yk++
+		case SecThreeSet:
+			fmt.Fprintf(&b, "H.B(%d,%d)\nT%d.P.X = 1\n", id, p, id)
 		case SecLocObj:
 			fmt.Fprintf(&b, "lo = H.Obj(%d)\nH.Y(%d,%d)\nlo.Ping(%d)\n", id, id, yk, id)
 			yk++
